@@ -41,6 +41,10 @@ type LinearState struct {
 
 	cachedRules map[string]*Rule
 
+	// cacheMu guards cachedRules, which readers (who only hold the
+	// state's read lock) fill.
+	cacheMu sync.Mutex
+
 	store Storage
 
 	addHook AddHookFn
@@ -186,7 +190,7 @@ func (s *LinearState) Add(ctx *Context, id string, x Map) (string, error) {
 	// changes to an id reach both in the same order.
 	s.slock(ctx, false)
 	defer s.sunlock(ctx, false)
-	delete(s.cachedRules, id)
+	s.uncacheRule(id)
 
 	pair := &Pair{[]byte(id), bs}
 	if err = s.store.Add(ctx, s.Name, pair); err != nil {
@@ -240,7 +244,7 @@ func (s *LinearState) rem(ctx *Context, id string, lock bool) (bool, error) {
 		s.slock(ctx, false)
 		defer s.sunlock(ctx, false)
 	}
-	delete(s.cachedRules, id)
+	s.uncacheRule(id)
 	_, err := s.store.Remove(ctx, s.Name, []byte(id))
 	// ToDo: Consider what's returned.
 	if err != nil {
@@ -362,9 +366,28 @@ func (s *LinearState) FindRules(ctx *Context, event Map) (map[string]Map, error)
 func (s *LinearState) doFindRules(ctx *Context, event Map) (map[string]Map, error) {
 	// We could call Search(), but we'll try to be a bit
 	// more efficient here.
-	acc := make(map[string]Map)
 	s.slock(ctx, true)
 	defer s.sunlock(ctx, true)
+	return s.findRules(ctx, event)
+}
+
+// uncacheRule forgets the cached rule (if any) for the given id.
+func (s *LinearState) uncacheRule(id string) {
+	s.cacheMu.Lock()
+	delete(s.cachedRules, id)
+	s.cacheMu.Unlock()
+}
+
+// uncacheRules forgets all cached rules.
+func (s *LinearState) uncacheRules() {
+	s.cacheMu.Lock()
+	s.cachedRules = make(map[string]*Rule)
+	s.cacheMu.Unlock()
+}
+
+// findRules does the work for doFindRules.  Assumes a read lock.
+func (s *LinearState) findRules(ctx *Context, event Map) (map[string]Map, error) {
+	acc := make(map[string]Map)
 	now := time.Now().UTC().Unix()
 	for id, rf := range s.Facts {
 		rule, given := rf.M["rule"]
@@ -433,15 +456,24 @@ func (s *LinearState) FindCachedRules(ctx *Context, event Map) (map[string]*Rule
 	timer := NewTimer(ctx, "LinearState.FindCachedRules")
 	defer timer.Stop()
 
-	rules, err := s.doFindRules(ctx, event)
+	// We keep the read lock while we consult and fill the cache.  A
+	// writer, which needs the write lock to change a rule and to
+	// drop its cache entry, therefore can't slip in between our
+	// reading a rule and our caching it.
+	s.slock(ctx, true)
+	defer s.sunlock(ctx, true)
+
+	rules, err := s.findRules(ctx, event)
 	if err != nil {
 		return nil, err
 	}
 
 	acc := make(map[string]*Rule)
+	s.cacheMu.Lock()
+	defer s.cacheMu.Unlock()
 	for id, r := range rules {
-		if _, isCached := s.cachedRules[id]; isCached {
-			acc[id] = s.cachedRules[id]
+		if cached, isCached := s.cachedRules[id]; isCached {
+			acc[id] = cached
 		} else {
 			rule, err := RuleFromMap(ctx, r)
 			if err != nil {
@@ -459,7 +491,7 @@ func (s *LinearState) Clear(ctx *Context) error {
 	s.slock(ctx, false)
 	_, err := s.store.Clear(ctx, s.Name)
 	s.Facts = make(map[string]RawFact)
-	s.cachedRules = make(map[string]*Rule)
+	s.uncacheRules()
 	s.sunlock(ctx, false)
 	return err
 }
@@ -469,7 +501,7 @@ func (s *LinearState) Delete(ctx *Context) error {
 	s.slock(ctx, false)
 	err := s.store.Delete(ctx, s.Name)
 	s.Facts = make(map[string]RawFact)
-	s.cachedRules = make(map[string]*Rule)
+	s.uncacheRules()
 	s.sunlock(ctx, false)
 	return err
 }
